@@ -607,45 +607,59 @@ def rule_TK(run: Run) -> RuleResult:
     t = repo.cls("Template")
     f = t.module.relpath
     nec = "a key read by substitution and not reported by keys()/explain()/validate() is a stale-cache key (C09)"
-    sources = {}
+    from .interp import Frame
+    KEY = "elem(call:confectioner.templating.find_template_keys(Child(template)))"
+    MATCH = f"call:match(global<labrea.template.TEMPLATE_PARAM>,{KEY})"
     for op in ("validate", "keys", "explain"):
         fn = t.methods.get(op)
         if fn is None:
             raise AnalysisError(f"Template.{op} not found")
-        amap = astu.single_assign_map(fn)
-        loops = [n for n in astu.walk_no_nested(fn) if isinstance(n, ast.For)]
-        ok_src = ok_skip = ok_deleg = False
-        src_txt = ""
-        for lp in loops:
-            it = astu.expand_locals(lp.iter, amap)
-            if not (isinstance(it, ast.Call) and astu.short_name(it) == "find_template_keys"):
-                continue
-            src_txt = ast.unparse(it)
-            ok_src = src_txt == "find_template_keys(self.template)"
-            if not isinstance(lp.target, ast.Name):
-                continue
-            var = lp.target.id
-            for n in ast.walk(lp):
-                if isinstance(n, ast.If) and isinstance(n.test, ast.Call) and ast.unparse(n.test) == f"TEMPLATE_PARAM.match({var})":
-                    if any(isinstance(s, ast.Continue) for s in n.body) and not n.orelse:
-                        ok_skip = True
-                if isinstance(n, ast.Call) and isinstance(n.func, ast.Attribute) and n.func.attr == op and isinstance(n.func.value, ast.Call) \
-                        and astu.short_name(n.func.value) == "Option" and len(n.func.value.args) == 1 and not n.func.value.keywords \
-                        and ast.unparse(n.func.value.args[0]) == var:
-                    ok_deleg = bool(n.args) and astu.norm_opts(astu.expand_locals(n.args[0], amap)) == astu.param_names(fn)[0]
-        sources[op] = src_txt
-        res.add(f"labrea.template.Template.{op}:iterates find_template_keys(self.template)", ok_src, f, fn.lineno, f"key source: {src_txt or 'none'}", nec)
-        res.add(f"labrea.template.Template.{op}:skips exactly the :param: keys", ok_skip, f, fn.lineno, "if TEMPLATE_PARAM.match(key): continue", nec)
-        res.add(f"labrea.template.Template.{op}:delegates each key to Option(key).{op}(options)", ok_deleg, f, fn.lineno,
-                "transitivity through templated values is inherited from Option", nec)
-        # params visited with the same op
-        vis = False
-        for n in astu.walk_no_nested(fn):
-            if isinstance(n, (ast.For, ast.comprehension)):
-                it = ast.unparse(n.iter)
-                if it in ("self.params.values()", "self.params.items()"):
-                    vis = True
-        res.add(f"labrea.template.Template.{op}:visits all params", vis, f, fn.lineno, "iterates self.params.values()", nec)
+        ps = run.paths(t, op, unroll=1)
+        srcs = set()
+        ok_skip = ok_deleg = True
+        delegated = False
+        saw_match = saw_nomatch = False
+        why_skip = why_deleg = ""
+        visits = False
+        for p in ps:
+            for e in p.events:
+                if e.kind == "call" and e.text.endswith("find_template_keys") and not e.via:
+                    srcs.add(",".join(a.key() for a in e.args))
+                if e.kind == "op" and e.op == op and isinstance(e.target, Child) and e.target.path == "params[*]" and e.whole:
+                    visits = True
+            m = None
+            for c in p.conds:
+                k_, pol = Frame.norm_cond(c[2], c[1])
+                if k_ == MATCH:
+                    m = pol
+            opt_ops = [e for e in p.events if e.kind in ("unfold", "op") and e.op == op and isinstance(e.target, New) and e.target.cls.name == "Option"
+                       and e.target.attrs.get("key") is not None and e.target.attrs["key"].key() == KEY]
+            if m is True:
+                saw_match = True
+                if opt_ops:
+                    ok_skip = False
+                    why_skip = "a :param: key is also looked up as an option"
+            elif m is False:
+                saw_nomatch = True
+                if p.status == "ret" and opt_ops:
+                    delegated = True
+                for e in opt_ops:
+                    if e.opts is None or e.opts.key() != "options":
+                        ok_deleg = False
+                        why_deleg = f"Option(key).{op} receives {e.opts.key() if e.opts else None}, not the caller's options"
+                    if e.target.attrs.get("default") is not None and e.target.attrs["default"].key() != "Const(MISSING)":
+                        ok_deleg = False
+                        why_deleg = "the delegated Option carries a default: a missing referenced key would go unreported"
+        ok_src = srcs == {"Child(template)"}
+        res.add(f"labrea.template.Template.{op}:iterates find_template_keys(self.template)", ok_src, f, fn.lineno, f"key source arguments: {sorted(srcs)}", nec)
+        res.add(f"labrea.template.Template.{op}:skips exactly the :param: keys", ok_skip and saw_match and saw_nomatch, f, fn.lineno,
+                why_skip or "TEMPLATE_PARAM.match(key) decides; matching keys are not looked up as options", nec)
+        if not delegated:
+            ok_deleg = False
+            why_deleg = why_deleg or f"no returning path delegates a non-parameter key to Option(key).{op}(options)"
+        res.add(f"labrea.template.Template.{op}:delegates each key to Option(key).{op}(options)", ok_deleg and saw_nomatch, f, fn.lineno,
+                why_deleg or "transitivity through templated values is inherited from Option", nec)
+        res.add(f"labrea.template.Template.{op}:visits all params", visits, f, fn.lineno, "every element of self.params receives the same operation", nec)
     ev = t.methods.get("evaluate")
     if ev is None:
         raise AnalysisError("Template.evaluate not found")
